@@ -591,8 +591,9 @@ def run_cases(ctx, exe, cases, cnt, var, cov, dist, distinct, tag="pcp_server()"
         jails.append(j)
         ents_l.append(ents)
     t0 = int(time.time())
+    ctx.log("%d jails built" % len(cases))
     env = dict(os.environ, ASAN_OPTIONS="detect_leaks=0")
-    impl = run_batch([exe], [[op_line(j, c)] for j, c in zip(jails, cases)], timeout=1800, env=env)
+    impl = pcp.par_batch([exe], [[op_line(j, c)] for j, c in zip(jails, cases)], timeout=1800, env=env)
 
     def rerun(idx):
         for k in idx:
@@ -605,7 +606,9 @@ def run_cases(ctx, exe, cases, cnt, var, cov, dist, distinct, tag="pcp_server()"
     nre = pcp.retry_timeouts(impl, lambda a: sig_of(a) in ("998", "999"), lambda a: sig_of(a) == "997", rerun)
     if nre:
         dist["timeouts_retried"] = dist.get("timeouts_retried", 0) + nre
-    mlines = ctx.model("pcp", "".join(model_line(c, e, cnt, var) + "\n" for c, e in zip(cases, ents_l)))
+    ctx.log("real receiver runs done")
+    mlines = pcp.par_model(ctx, "pcp", [model_line(c, e, cnt, var) for c, e in zip(cases, ents_l)])
+    ctx.log("model runs done")
     judge(ctx, cases, jails, ents_l, [a[0] if a else "" for a, _ in impl], [cr for _, cr in impl], mlines, t0,
           cov, dist, distinct, tag, shrinker=lambda c, sig: shrink(ctx, exe, c, sig))
     shutil.rmtree(base, ignore_errors=True)
@@ -710,7 +713,8 @@ def judge(ctx, cases, jails, ents_l, answers, crashes, mlines, t0, cov, dist, di
         dcanon = pcp.lexnorm(CWD, c["dest"])
         spec_lines.append("spec12 %s %s" % (hx(dcanon), " ".join(hx(p) for p in ch)))
         spec_lines.append("norm %s %s" % (hx(CWD), hx(c["dest"])))
-    slines = ctx.model("pcp", "".join(l + "\n" for l in spec_lines))
+    slines = pcp.par_model(ctx, "pcp", spec_lines)
+    ctx.log("snapshots taken, specification evaluated (%s)" % tag)
     for k, c in enumerate(cases):
         cov["evaluations"] += 1
         f = pcp.fields(answers[k])
@@ -929,7 +933,7 @@ def run_binary(ctx, cases, cnt, var, cov, dist, distinct):
                 break
     keep = [i for i, a in enumerate(answers) if a is not None]
     use, jails, ents_l, answers, crashes = ([x[i] for i in keep] for x in (use, jails, ents_l, answers, crashes))
-    mlines = ctx.model("pcp", "".join(model_line(c, e, cnt, var) + "\n" for c, e in zip(use, ents_l)))
+    mlines = pcp.par_model(ctx, "pcp", [model_line(c, e, cnt, var) for c, e in zip(use, ents_l)])
     dist["binary_cases"] = dist.get("binary_cases", 0) + len(use)
     judge(ctx, use, jails, ents_l, answers, crashes, mlines, t0, cov, dist, distinct, "pdcp -z (scratch build)")
     shutil.rmtree(base, ignore_errors=True)
